@@ -9,6 +9,7 @@ import (
 	"strconv"
 	"strings"
 
+	"github.com/jackc/pgx/v5/pgtype"
 	wire "github.com/jeroenrinzema/psql-wire"
 	"github.com/lib/pq/oid"
 	"verif/engine/explore"
@@ -361,9 +362,22 @@ func c08Typed() []typedParam {
 	}
 }
 
-func c08RunTyped(ps []typedParam) explore.Result {
+func c08RunTyped(ps []typedParam, private ...bool) explore.Result {
 	var res explore.Result
 	res.Outcome = "typed"
+	var sopts []wire.OptionFn
+	if len(private) > 0 && private[0] {
+		// the parameter's type only exists on THIS connection's type map (registered by a session middleware, the
+		// documented way of adding per-connection types): the parameter's own decoder must know it
+		sopts = append(sopts, wire.SessionMiddleware(func(ctx context.Context) (context.Context, error) {
+			for _, p := range ps {
+				if p.OID >= 90000 {
+					wire.TypeMap(ctx).RegisterType(&pgtype.Type{Name: fmt.Sprintf("private%d", p.OID), OID: p.OID, Codec: pgtype.TextCodec{}})
+				}
+			}
+			return ctx, nil
+		}))
+	}
 	var got []string
 	parse := func(ctx context.Context, q string) (wire.PreparedStatements, error) {
 		return wire.Prepared(wire.NewStatement(func(ctx context.Context, w wire.DataWriter, params []wire.Parameter) error {
@@ -382,7 +396,7 @@ func c08RunTyped(ps []typedParam) explore.Result {
 			return w.Complete("OK")
 		})), nil
 	}
-	one, err := harness.StartOne(parse)
+	one, err := harness.StartOne(parse, sopts...)
 	if err != nil {
 		res.Engine = err.Error()
 		return res
@@ -484,7 +498,11 @@ type c08Bind struct {
 	RF   []int16
 }
 
-func c08RunTwoPortals(a, b c08Bind, label string) explore.Result {
+func c08RunTwoPortals(a, b c08Bind, label string, names ...string) explore.Result {
+	first, second := "first", "second"
+	if len(names) == 2 {
+		first, second = names[0], names[1]
+	}
 	var res explore.Result
 	res.Outcome = "two-portals"
 	res.Key = "two-portals " + label
@@ -515,9 +533,9 @@ func c08RunTwoPortals(a, b c08Bind, label string) explore.Result {
 	defer one.Stop()
 	one.Step(pgproto.Startup("user", "u"))
 	out, _ := one.Step(pgproto.Cat(pgproto.Parse("s", "q"),
-		pgproto.Bind("first", "s", a.PF, a.Vals, a.RF), pgproto.Describe('P', "first"),
-		pgproto.Bind("second", "s", b.PF, b.Vals, b.RF), pgproto.Describe('P', "second"),
-		pgproto.Execute("first", 0), pgproto.Execute("second", 0), pgproto.Sync()))
+		pgproto.Bind(first, "s", a.PF, a.Vals, a.RF), pgproto.Describe('P', first),
+		pgproto.Bind(second, "s", b.PF, b.Vals, b.RF), pgproto.Describe('P', second),
+		pgproto.Execute(first, 0), pgproto.Execute(second, 0), pgproto.Sync()))
 	ms, perr := pgproto.ParseBackend(out)
 	if perr != nil || pgproto.Kinds(ms) != "12T2TDCDCZ" {
 		res.Fail("reply-sequence", fmt.Sprintf("%s: reply %q %v", label, pgproto.Kinds(ms), perr))
@@ -583,6 +601,17 @@ func c08Enumerate(tier string, emit explore.Emit) {
 				label := fmt.Sprintf("first(rf=%v) second(rf=%v)", ra, rb)
 				emit(explore.Case{Family: "two-portals", Size: 6, Desc: func() any { return label },
 					Run: func() explore.Result { return c08RunTwoPortals(a, b, label) }})
+			}
+		}
+		// long portal names that only differ late (or only in length)
+		for _, n := range []int{31, 32, 62, 63, 64, 65, 127, 128, 255, 256, 1000} {
+			base := strings.Repeat("p", n)
+			for vi, pair := range [][2]string{{base + "a", base + "b"}, {base, base + "x"}, {base + "x", base}} {
+				a, b := c08Bind{nil, three("a"), []int16{0}}, c08Bind{nil, three("b"), []int16{1}}
+				pair := pair
+				label := fmt.Sprintf("portal names of %d / %d bytes sharing their first %d bytes (variant %d)", len(pair[0]), len(pair[1]), n, vi)
+				emit(explore.Case{Family: "two-portals", Size: 8, Desc: func() any { return label },
+					Run: func() explore.Result { return c08RunTwoPortals(a, b, label, pair[0], pair[1]) }})
 			}
 		}
 		// large values around / above the 4 KiB allocation granule
@@ -660,6 +689,23 @@ func c08Enumerate(tier string, emit explore.Emit) {
 						}
 					}
 				}
+			}
+		}
+	}
+	// types registered on the connection's own type map only
+	for _, f := range []int16{0, 1} {
+		for _, v := range []string{"", "value of a private type", "é\x01"} {
+			tp := typedParam{Name: fmt.Sprintf("private type 90001 format %d value %q", f, v), OID: 90001, Format: f, Bytes: []byte(v), Want: v}
+			builtin := typedParam{Name: "int4 text 42", OID: 23, Format: 0, Bytes: []byte("42"), Want: "42"}
+			for _, batch := range [][]typedParam{{tp}, {builtin, tp}, {tp, builtin}} {
+				batch := batch
+				emit(explore.Case{Family: "typed", Size: 3, Desc: func() any {
+					var n []string
+					for _, b := range batch {
+						n = append(n, b.Name)
+					}
+					return map[string]any{"parameters": n, "registered": "on the connection's type map by a session middleware"}
+				}, Run: func() explore.Result { return c08RunTyped(batch, true) }})
 			}
 		}
 	}
